@@ -130,6 +130,41 @@ CHECKS.update({
         'an error (not RecursionError) for cycles.', '5/C18'),
 })
 
+DUMP_TECH = ('TLA+ state machine RoundTrip (object-graph generation with '
+             'sharing, Represent with PyYAML\'s registry, sweeten chain, '
+             'recomposition through dumper/loader resolver tables, then the '
+             'load pipeline) explored exhaustively by TLC; every terminal '
+             'behaviour replayed through dumps / plain PyYAML / load')
+DUMP_NOTE = ('Trusted: PyYAML representer/serializer as modelled; emitter and '
+             'scanner character-level behaviour exercised on the concrete '
+             'atom pool only; the dumper\'s implicit tags are read from the '
+             'live Dumper table; object graphs bounded per model.')
+CHECKS.update({
+    'C05': dict(engine='RoundTrip', technique=DUMP_TECH, note=DUMP_NOTE,
+                design='5/C05',
+                text='TLC checks RoundTripHolds (load(Recompose(Dump(v))) = v '
+                'with defaults filled in) for every value of every catalogue '
+                'type for which the model is unambiguous, incl. adversarial '
+                'string atoms, non-finite floats, dates, paths, enums, '
+                'string-like keys, extras, default-value sweetening, inverse '
+                'sweeten/savorize pairs and shared objects; each value is '
+                'built as a real object graph, dumped and loaded back and '
+                'compared structurally.  The resolver part (what the dumper '
+                'writes plain must read back as a string) is decided for all '
+                'strings by the Resolver product automaton (C09 machinery).'),
+    'C06': dict(engine='RoundTrip', technique=DUMP_TECH, note=DUMP_NOTE,
+                design='5/C06',
+                text='TagFree and ProjectionFaithful (the node graph, aliases '
+                'expanded, equals the sharing-free representation with the '
+                'sweeten chain applied at every reference) and the frame '
+                'property DumpIsPure are checked by TLC; the replay parses '
+                'the real text with plain PyYAML (one document, no tag '
+                'tokens, data equal to the predicted projection), compares a '
+                'deep identity-aware snapshot of the object before/after and '
+                'dumps twice; sweeten call order compared with the history '
+                'variable.'),
+})
+
 NOT_YET = 'check not built yet (work in progress; see DESIGN.md section 5)'
 
 
